@@ -227,7 +227,7 @@ type World struct {
 	// forwarded-host claims (send)
 	nsend     int
 	seenHosts []string
-	byDom  []bool // per service: policy written as domains instead of addresses
+	byDom     []bool // per service: policy written as domains instead of addresses
 }
 
 func key(w []string) string {
